@@ -6,6 +6,7 @@ from ..cfg import cfg_of, raised_class
 from ..dataflow import Origins
 from .. import excflow
 from ..match import calls_named, arg_of, unguarded_path, only_raises_from
+from ..match import result_reaches, just, facts, Q
 from . import c04
 
 C = "cache.Cache."
@@ -109,59 +110,83 @@ def r2_expiry_guard(run):
     m = run.model
     fi = m.func(C + "get")
     cfg = cfg_of(fi, m)
-    tests = [t for t in cfg.by_kind("test")
-             if "time_util.after(timestamp)" in unparse(t.ast)]
+    # reader: (expiry, info) = self._db[code(name_id)][entity_id]
+    unp = [nd for nd in cfg.by_kind("stmt") if isinstance(nd.ast, ast.Assign) and
+           isinstance(nd.ast.targets[0], ast.Tuple) and
+           len(nd.ast.targets[0].elts) == 2 and
+           all(isinstance(e, ast.Name) for e in nd.ast.targets[0].elts) and
+           cfg.itext(nd.ast.value, nd.id) == "self._db[code(name_id)][entity_id]"]
+    run.require(len(unp) == 1, "Cache.get: the read of the stored "
+                "(expiry, info) tuple vanished")
+    ts = unp[0].ast.targets[0].elts[0].id
     key = fi.qual + "::expiry-guard"
+    tests = [(nd, c) for nd, c in cfg.call_nodes("after")
+             if attr_chain(c.func) == "time_util.after" and c.args and
+             unparse(c.args[0]) == ts]
     if not tests:
         run.violated("R2", key, "the stored timestamp is no longer tested with "
                      "time_util.after()", fi.loc())
     else:
-        t = tests[0]
-        run.check(unparse(t.ast) ==
-                  "check_not_on_or_after and time_util.after(timestamp)", "R2",
-                  key + "::condition", "check_not_on_or_after and "
-                  "after(timestamp)", "expiry condition is %s" % unparse(t.ast),
-                  fi.loc(t.ast))
-        tb = [b for b in cfg.succ[t.id] if cfg.nodes[b].kind == "true"]
-        ok = tb and only_raises_from(cfg, tb[0])
+        t, tc = tests[0]
+        exc = [n.id for n in cfg.nodes if n.kind == "exc"]
+        wit = result_reaches(cfg, t.id, tc, [cfg.return_exit], "T",
+                             assume={"check_not_on_or_after": "T"}, avoid=exc)
         rs = [r for r in cfg.by_kind("raise") if raised_class(r.ast) == "ToOld"]
-        run.check(ok and rs, "R2", key + "::expired=>ToOld",
+        run.check(wit is None and bool(rs), "R2", key + "::expired=>ToOld",
                   "an expired entry raises ToOld",
-                  "an expired entry does not raise", fi.loc(t.ast))
+                  "an expired entry does not raise", fi.loc(t.ast),
+                  witness=cfg.describe_path(wit) if wit else None)
+        # not expired => returns (no other condition makes it raise)
+        wit = result_reaches(cfg, t.id, tc, [cfg.return_exit], "F",
+                             assume={"check_not_on_or_after": "T"}, avoid=exc)
+        run.check(wit is not None, "R2", key + "::condition",
+                  "an entry that is not expired is returned",
+                  "an unexpired entry no longer reaches the return", fi.loc(t.ast),
+                  nontrivial=False)
         wit = unguarded_path(cfg, cfg.entry, [cfg.return_exit], [t.id],
-                             lambda e, p: False)
+                             just(cfg, ("check_not_on_or_after", False)))
         run.check(wit is None, "R2", key + "::dominates",
-                  "every normal return passes the test",
+                  "every normal return passes the test (unless the caller "
+                  "switched expiry checking off)",
                   "Cache.get can return without the expiry test", fi.loc(),
                   witness=cfg.describe_path(wit) if wit else None)
-    unp = [s for s in walk_no_nested(fi.node) if isinstance(s, ast.Assign) and
-           isinstance(s.targets[0], ast.Tuple)]
-    ok = len(unp) == 1 and unparse(unp[0].targets[0]) == "(timestamp, info)" \
-        and unparse(unp[0].value) == "self._db[cni][entity_id]"
     st = m.func(C + "set")
-    wr = [s for s in walk_no_nested(st.node) if isinstance(s, ast.Assign) and
-          unparse(s.targets[0]) == "self._db[cni][entity_id]"]
-    ok = ok and len(wr) == 1 and unparse(wr[0].value) == \
-        "(not_on_or_after, info)"
+    scfg = cfg_of(st, m)
+    sorg = Origins(scfg)
+    wr = [nd for nd in scfg.by_kind("stmt") if isinstance(nd.ast, ast.Assign) and
+          isinstance(nd.ast.targets[0], ast.Subscript) and
+          scfg.itext(nd.ast.targets[0], nd.id) ==
+          "self._db[code(name_id)][entity_id]"]
+    ok = len(wr) == 1 and isinstance(wr[0].ast.value, ast.Tuple) and \
+        len(wr[0].ast.value.elts) == 2
+    if ok:
+        e0, e1 = wr[0].ast.value.elts
+        ok = {(a.kind, a.text) for a in sorg.of(e0, wr[0].id)} == \
+            {("param", "not_on_or_after")} and \
+            ("param", "not_on_or_after") not in \
+            {(a.kind, a.text) for a in sorg.of(e1, wr[0].id)}
     run.check(ok, "R2", "cache.Cache::tuple-order",
-              "written (not_on_or_after, info), read (timestamp, info)",
+              "written (not_on_or_after, info), read (expiry, info)",
               "writer and reader disagree on the stored tuple", fi.loc())
     ac = m.func(C + "active")
     unp2 = [s for s in walk_no_nested(ac.node) if isinstance(s, ast.Assign) and
             isinstance(s.targets[0], ast.Tuple)]
-    run.check(len(unp2) == 1 and unparse(unp2[0].targets[0]) ==
-              "(timestamp, info)", "R2", ac.qual + "::tuple-order",
+    run.check(len(unp2) == 1 and len(unp2[0].targets[0].elts) == 2, "R2",
+              ac.qual + "::tuple-order",
               "same tuple order", "active() unpacks differently", ac.loc(),
               nontrivial=False)
     rets = [unparse(r.value) for r in walk_no_nested(ac.node)
             if isinstance(r, ast.Return)]
-    run.check("time_util.not_on_or_after(timestamp)" in rets and
+    ats = unparse(unp2[0].targets[0].elts[0]) if unp2 else "?"
+    run.check("time_util.not_on_or_after(%s)" % ats in rets and
               rets.count("False") >= 2, "R2", ac.qual + "::verdict",
               "active iff info present and not_on_or_after(timestamp)",
               "active() returns %s" % rets, ac.loc())
     # info returned is a copy of what was stored for that key
+    iname = unp[0].ast.targets[0].elts[1].id
     cp = [s for s in walk_no_nested(fi.node) if isinstance(s, ast.Assign) and
-          unparse(s.targets[0]) == "info" and unparse(s.value) == "info.copy()"]
+          unparse(s.targets[0]) == iname and
+          unparse(s.value) == iname + ".copy()"]
     run.check(len(cp) == 1, "R2", fi.qual + "::copy",
               "callers get a copy (cannot corrupt the cache)",
               "stored info is handed out by reference", fi.loc(),
